@@ -70,6 +70,18 @@ def holder(v):
 
 def run(chk, F, tier):
     """-> False when the interpreter cannot follow the code (the structural rules are used then)"""
+    global SIZES
+    if tier == "thorough":
+        # the sizes the library uses by default (and one degenerate array)
+        ok = True
+        for sz in ({"ZETA": 10, "GOLOMB": 20, "EXP_GOLOMB": 10, "RICE": 10, "PI": 10}, {"ZETA": 1, "GOLOMB": 2, "EXP_GOLOMB": 0, "RICE": 1, "PI": 1}, dict(SIZES)):
+            SIZES = sz
+            ok = run_sizes(chk, F, tier) and ok
+        return ok
+    return run_sizes(chk, F, tier)
+
+
+def run_sizes(chk, F, tier):
     import rules_c10
     lay = layout(F)
     env = dict(SIZES)
